@@ -139,6 +139,10 @@ func runFaultFamily(rep *lib.Report, tier string, workerCh chan *worker, only *r
 	}
 	pending := make([][]pv, len(specs))
 	modes := []readMode{readModes[0], readModes[3], readModes[5]}
+	if tier != "thorough" {
+		modes = modes[:2] // quick: one Write path and ... (the direct Body.Read path runs in thorough)
+		modes[1] = readModes[5]
+	}
 	lib.Parallel(len(specs), func(i int) {
 		spec := specs[i]
 		m := msggen.Build(spec)
